@@ -3,6 +3,7 @@
 cd /verif
 for d in seeded/*/; do
   s=$(basename $d)
+  case "$s" in *e|*f) continue;; esac
   p=${s:0:3}
   # stored alternate patch for seeds that were re-based
   echo "=== $s"
